@@ -80,3 +80,37 @@ Example C18_places_of_if_data_in_the_grammar :
   ["AxisPts"; "Blob"; "Characteristic"; "Frame"; "Function"; "Group"; "Instance"; "Measurement"; "MemoryLayout";
    "MemorySegment"; "Module"]%string.
 Proof. exact ifdata_parents_of_the_shipped_grammar. Qed.
+
+(* ---------- values survive: scalars, structs and arrays in any nesting ---------- *)
+From A2L Require Import Gram.Writer Gram.TokWriter Proofs.CursorProofs Proofs.ProvenanceProofs Proofs.IfdataRoundTripProofs.
+
+(* IF_DATA content that conforms to a definition made of integers, floats, char arrays (strings), enums, structs and arrays:
+   read from the tokens the writer prints for it (GenericIfData::write, token by token), the typed parser returns the same
+   value - every integer with value and notation, every float, string and enum item - and consumes exactly these tokens.
+   ([er_gifd] erases line offsets and include attribution, nothing else.) *)
+Theorem C18_conforming_scalars_structs_and_arrays_are_read_back : forall ftab c f ty g, c_fileid c = O ->
+  (ty_depth ty <= f)%nat -> conf ftab ty g ->
+  forall s ts rest, Inv s -> ps_ftab s = ftab -> ps_after s = ts ++ rest -> map shape_of ts = gtoks ftab g ->
+  exists g' s', parse_ifdata_item f ty c s = (ROk g', s') /\ adv ts s s' /\ er_gifd g' = er_gifd g.
+Proof. intros ftab c f ty g Hc Hd Hconf. exact (conforming_content_is_read_back ftab c Hc f ty g Hd Hconf). Qed.
+Print Assumptions C18_conforming_scalars_structs_and_arrays_are_read_back.
+
+(* the premises are met: a struct with a hex integer, a string, an array of two bytes and an enum item *)
+Example C18_conformance_example :
+  conf [] (TStruct [TUInt; TArray TChar 8; TArray TUChar 2; TEnum [(bytes_of "A", None); (bytes_of "B", Some 1%Z)]])
+       (GStruct None 0 [GInt "UInt" 0 16 true; GString 0 (bytes_of "ab"); GArray [GInt "UChar" 0 1 false; GInt "UChar" 0 255 true]; GEnumItem 0 (bytes_of "B")]).
+Proof.
+  apply conf_struct. constructor; [apply (conf_int [] TUInt "UInt" U16); reflexivity|].
+  constructor; [apply conf_string|].
+  constructor; [apply conf_array; [discriminate | reflexivity|]; constructor; [apply (conf_int [] TUChar "UChar" U8); reflexivity|];
+                constructor; [apply (conf_int [] TUChar "UChar" U8); reflexivity | constructor]|].
+  constructor; [apply conf_enum; reflexivity | constructor].
+Qed.
+
+(* [gtoks] is what the byte-level writer prints: the text that GenericIfData::write (Gram/Writer.v gifd_write, tied to the
+   implementation by the correspondence runs) produces for the example value is cut by the scanner into exactly these tokens *)
+Definition demo_ifd_value : gifd :=
+  GStruct None 0 [GInt "UInt" 0 16 true; GString 1 (bytes_of "ab"); GArray [GInt "UChar" 0 1 false; GInt "UChar" 2 255 true]; GEnumItem 0 (bytes_of "B")].
+Example C18_written_text_has_these_tokens :
+  match tokenize_core 0 (gifd_write [] [] 5 demo_ifd_value 2) with TOk t => map shape_of t | _ => [] end = gtoks [] demo_ifd_value.
+Proof. vm_compute. reflexivity. Qed.
